@@ -2,41 +2,211 @@
 import json, os, sys, time
 from .common import *
 from .engine import *
-from . import cratebuild, corpus_ctor
+from . import cratebuild, corpus_ctor, corpus_extra
+
+ASSUME_COMMON = ["lowercase/uppercase meaning = this toolchain's str::to_lowercase/to_uppercase",
+                 "NaN vs bound validators: either verdict accepted (DESIGN section 3)",
+                 "user `with`/predicate functions are drawn from a fixed library; the oracle calls the same function bodies",
+                 "rustc 1.95 stable; inputs beyond the enumerated/sampled domains are not covered"]
 
 
-def check_c01(tier, seed):
-    res = Result("C01", tier, seed)
-    res.rule = ("declarations: systematic core (every bound kind x bound position x 12 integer types; float bound values incl. +-inf, -0.0, "
-                "subnormal, MIN/MAX; every permutation of every subset of {trim, lowercase|uppercase, with} x validator sets; other/generic types; "
-                "const_fn/renamed/generic twins); inputs per DESIGN section 4 (all 2^8/2^16 integers, all strings <=L over the hostile alphabet, boundary "
-                "neighbourhoods, seeded random tail). A case is one (declaration, outcome class) pair with outcome class in {ok-unchanged, "
-                "ok-sanitized, err:<variant>, twins-agree}; distinct_nontrivial counts distinct pairs.")
-    decls = [d for d in corpus_ctor.build(tier, seed) if "C01" in d.tags]
-    out, by_id = runtime_check(res, "ctor-%s-s%d" % (tier, seed), corpus_ctor.build(tier, seed), ["C01"])
+def ctor_decls(tier, seed):
+    return corpus_ctor.build(tier, seed) + corpus_extra.build_perm(tier, seed) + corpus_extra.build_message(tier, seed) + corpus_extra.build_finite(tier, seed)
+
+
+def fam_of(r):
+    f = r["family"]
+    for k, n in (("Int", "int"), ("F32", "float"), ("F64", "float"), ("Str", "string"), ("Other", "other")):
+        if f.startswith(k):
+            return n
+    return f
+
+
+def sum_guard(reports, key):
+    return sum(r["guards"].get(key, 0) for r in reports)
+
+
+def sum_hist(reports, pred):
+    return sum(v for r in reports for k, v in r["hist"].items() if pred(k))
+
+
+def ctor_flow(prop, tier, seed, rule, guards_fn, assumptions=None):
+    res = Result(prop, tier, seed)
+    res.rule = rule
+    out, by_id = runtime_check(res, "ctor-%s-s%d" % (tier, seed), ctor_decls(tier, seed), [prop])
     if out is None:
         return finish(res)
-    absorb_reports(res, out["C01"], by_id)
-    # guards
-    fams = {}
-    for r in out["C01"]:
-        f = fams.setdefault(r["family"].split(" ")[0].split("{")[0], {"ok": 0, "err": 0, "san": 0})
-        f["ok"] += r["hist"].get("ok", 0)
-        f["err"] += sum(v for k, v in r["hist"].items() if k.startswith("err:"))
-        f["san"] += r["guards"].get("sanitizer_changed_value", 0)
-    for fam, c in fams.items():
-        res.guard("ok_observed[%s]" % fam, c["ok"], 1)
-        res.guard("err_observed[%s]" % fam, c["err"], 1)
-        res.guard("sanitizer_changed_value[%s]" % fam, c["san"], 1)
-    res.guard("families", len(fams), 4)
-    res.guard("const_evaluated", sum(r["guards"].get("const_evaluated", 0) for r in out["C01"]), 1)
-    res.guard("twin_groups", sum(1 for r in out["C01"] if r["decl"].startswith("twins:")), 3)
-    res.assumptions += ["lowercase/uppercase meaning = this toolchain's str::to_lowercase/to_uppercase", "NaN vs bound validators: either verdict accepted (DESIGN section 3)",
-                        "user `with`/predicate functions drawn from a fixed library"]
+    reports = out[prop]
+    absorb_reports(res, reports, by_id)
+    guards_fn(res, reports)
+    res.assumptions += ASSUME_COMMON + (assumptions or [])
     return finish(res)
 
 
-CHECKS = {"C01": check_c01}
+def check_c01(tier, seed):
+    def guards(res, reports):
+        fams = {}
+        for r in reports:
+            f = fams.setdefault(fam_of(r), {"ok": 0, "err": 0, "san": 0})
+            f["ok"] += r["hist"].get("ok", 0)
+            f["err"] += sum(v for k, v in r["hist"].items() if k.startswith("err:"))
+            f["san"] += r["guards"].get("sanitizer_changed_value", 0)
+        for fam, c in sorted(fams.items()):
+            res.guard("ok_observed[%s]" % fam, c["ok"], 1)
+            res.guard("err_observed[%s]" % fam, c["err"], 1)
+            res.guard("sanitizer_changed_value[%s]" % fam, c["san"], 1)
+        res.guard("families", len(fams), 4)
+        res.guard("const_evaluated", sum_guard(reports, "const_evaluated"), 1)
+        res.guard("twin_groups", sum(1 for r in reports if r["decl"].startswith("twins:")), 3)
+        # each bound observed below / on / above
+        sides = {"Less": 0, "Equal": 0, "Greater": 0}
+        for r in reports:
+            for k, v in r["guards"].items():
+                if k.startswith("bound"):
+                    sides[k.split(":")[1]] += v
+        for k, v in sides.items():
+            res.guard("inputs_%s_than_bound" % k.lower(), v, 1)
+    return ctor_flow("C01", tier, seed,
+                     "declarations: systematic core (every bound kind x bound position x 12 integer types; float bound values incl. +-inf, -0.0, "
+                     "subnormal, MIN/MAX; every permutation of every subset of {trim, lowercase|uppercase, with} x validator sets; other/generic types; "
+                     "const_fn/renamed/generic twins; the permutation corpus of C07); inputs per DESIGN section 4 (all 2^8/2^16 integers, all strings <=L over the "
+                     "hostile alphabet, boundary neighbourhoods, seeded random tail; thorough: all 2^32 f32 patterns for 8 declarations, every Unicode scalar). "
+                     "A case is one (declaration, outcome class) pair with outcome class in {ok-unchanged, ok-sanitized, err:<variant>, twins-agree}; "
+                     "distinct_nontrivial counts distinct pairs.", guards)
+
+
+def check_c03(tier, seed):
+    def guards(res, reports):
+        cells = {}
+        for r in reports:
+            for k, v in r["hist"].items():
+                cells[(fam_of(r), k)] = cells.get((fam_of(r), k), 0) + v
+        for fam in ("int", "float", "string", "other"):
+            res.guard("TryFrom<Inner>[%s]" % fam, cells.get((fam, "TryFrom<Inner>"), 0), 1)
+            res.guard("From<Inner>[%s]" % fam, cells.get((fam, "From<Inner>"), 0), 1)
+        for k in ("TryFrom<&str>", "From<&str>", "FromStr(String)"):
+            res.guard("%s[string]" % k, cells.get(("string", k), 0), 1)
+        res.guard("default_returns", sum_guard(reports, "default_returns"), 1)
+        res.guard("default_panics", sum_guard(reports, "default_panics"), 1)
+    return ctor_flow("C03", tier, seed,
+                     "every declaration of the ctor corpus derives every admissible conversion trait (TryFrom or From alternating, FromStr, Default for a third, "
+                     "defaults valid / invalid / valid only after sanitising); each conversion is called on every input of the C01 domain and compared (Ok/Err, stored "
+                     "value bitwise, error variant and text) with try_new/new on the same input. A case is a (declaration, conversion, ok|err) triple or a "
+                     "(declaration, default returns|panics) pair; distinct_nontrivial counts distinct ones.", guards)
+
+
+def check_c06(tier, seed):
+    def guards(res, reports):
+        fams = {}
+        for r in reports:
+            f = fams.setdefault(fam_of(r), {"parse-error": 0, "validate-error": 0, "ok": 0, "san": 0})
+            for k in ("parse-error", "validate-error", "ok"):
+                f[k] += r["hist"].get(k, 0)
+            f["san"] += r["guards"].get("sanitizer_changed_parsed_value", 0)
+        for fam in ("int", "float", "other"):
+            c = fams.get(fam, {})
+            for k in ("parse-error", "validate-error", "ok"):
+                res.guard("%s[%s]" % (k, fam), c.get(k, 0), 1)
+            res.guard("sanitizer_changed_parsed_value[%s]" % fam, c.get("san", 0), 1)
+    return ctor_flow("C06", tier, seed,
+                     "integer, float and other/generic declarations of the ctor corpus deriving FromStr; strings: renderings ({}, {:e}, {:?}, +sign) of the C01 domain "
+                     "and bounds, overflow digit strings, signs, whitespace, NaN/inf spellings, 1e400, empty/non-numeric text, random ASCII-numeric and Unicode. "
+                     "Differential oracle: Inner::from_str then the constructor. A case is a (declaration, class) pair with class in {parse-error, validate:<variant>, ok, "
+                     "ok-sanitized}.", guards)
+
+
+def check_c07(tier, seed):
+    def guards(res, reports):
+        res.guard("multi_violation_executions", sum_guard(reports, "multi_violation"), 200)
+        fams = {}
+        for r in reports:
+            fams[fam_of(r)] = fams.get(fam_of(r), 0) + r["guards"].get("first_violated_not_first_declared", 0)
+        for fam in ("int", "float", "string"):
+            res.guard("first_violated_not_first_declared[%s]" % fam, fams.get(fam, 0), 1)
+    return ctor_flow("C07", tier, seed,
+                     "permutation corpus: permutations of the full built-in validator set per family and of its subsets (String 5 validators incl. regex and predicate; "
+                     "integer lower/upper/predicate x strict/non-strict; float finite/lower/upper/predicate), contradictory expression-valued bounds, custom with/error in "
+                     "every family; the error enum is matched without wildcard (compiles iff it has exactly the declared variants). Oracle: first violated validator in "
+                     "declared order (NaN vs bounds three-valued). A case is a (declaration, single|multi:<variant>) pair; multi = input violating >= 2 declared rules.", guards)
+
+
+def check_c11(tier, seed):
+    def guards(res, reports):
+        res.guard("values_changed_by_sanitizer", sum_guard(reports, "stored_differs_from_raw"), 1000)
+        res.guard("chains", sum_guard(reports, "chains"), 100)
+        steps = {}
+        for r in reports:
+            for k, v in r["hist"].items():
+                steps[k] = steps.get(k, 0) + v
+        for k in ("into_inner->try_new/new", "into_inner->TryFrom", "into_inner->From", "Display->FromStr"):
+            res.guard("step[%s]" % k, steps.get(k, 0), 1)
+    return ctor_flow("C11", tier, seed,
+                     "declarations with built-in (or idempotent library) rules only: every order of {trim, lowercase|uppercase} x validator sets, numeric declarations; "
+                     "for every obtainable value v (Ok results of the C01 domain; thorough adds every Unicode scalar and all pairs of a 40-char case/space set) every derived "
+                     "re-entry step (into_inner->try_new, ->TryFrom, ->From, Display->FromStr) must land on v again, plus seeded random chains of length 2 (quick) / 4 "
+                     "(thorough); serde steps are exercised by C10. A case is a (declaration, value-changed-by-sanitizer|value-unchanged) pair.", guards,
+                     ["Display->FromStr is conditioned on the inner type's own Display/FromStr round trip (skips counted in guards)"])
+
+
+def check_c13(tier, seed):
+    def guards(res, reports):
+        seen = set()
+        for r in reports:
+            for c in r["classes"]:
+                seen.add((fam_of(r), c.split(":")[0]))
+        for fam in ("int", "float", "string", "other"):
+            for v in ("AsRef", "Deref", "Borrow", "Into", "Clone", "eq", "partial_cmp"):
+                res.guard("%s[%s]" % (v, fam), 1 if (fam, v) in seen else 0, 1)
+        for fam in ("int", "string", "other"):
+            for v in ("cmp", "hash"):
+                res.guard("%s[%s]" % (v, fam), 1 if (fam, v) in seen else 0, 1)
+        res.guard("Display[any]", sum(1 for (f, c) in seen if c == "Display"), 3)
+        res.guard("Borrow<str>[string]", 1 if ("string", "Borrow<str>") in seen else 0, 1)
+        res.guard("IntoIterator[other]", 1 if ("other", "IntoIterator") in seen else 0, 1)
+        res.guard("HashMap-lookup-by-borrowed", sum(1 for (f, c) in seen if c == "HashMap-lookup-by-borrowed"), 2)
+        res.guard("pairs_equal_only_after_sanitisation", sum_guard(reports, "pairs_equal_only_after_sanitisation"), 50)
+    return ctor_flow("C13", tier, seed,
+                     "every declaration of the ctor corpus derives all admissible view and comparison traits; for every obtainable value: AsRef/Deref/Borrow(+Borrow<str>)/"
+                     "Into/Clone/Copy/iteration expose the stored value, Display equals the inner Display under 7 format specs, HashMap/BTreeMap lookup through the borrowed "
+                     "form finds the key; for pairs (equal, adjacent in the sorted domain, equal only after sanitisation, extremes, random) ==, !=, partial_cmp, <,<=,>,>=, "
+                     "cmp and hash equal the inner value's (hash also equals hash of the borrowed str). A case is a (declaration, view or comparison outcome class) pair.", guards)
+
+
+def check_c16(tier, seed):
+    def guards(res, reports):
+        cells = set()
+        for r in reports:
+            for c in r["classes"]:
+                cells.add((fam_of(r), c.split(":")[0]))
+        for fam in ("int", "float"):
+            for k in ("GreaterViolated", "GreaterOrEqualViolated", "LessViolated", "LessOrEqualViolated"):
+                res.guard("relation_parsed[%s,%s]" % (fam, k), 1 if (fam, k) in cells else 0, 1)
+        for k in ("LenCharMinViolated", "LenCharMaxViolated"):
+            res.guard("relation_parsed[string,%s]" % k, 1 if ("string", k) in cells else 0, 1)
+        res.guard("fromstr_embeds", sum_guard(reports, "fromstr_embeds"), 10)
+    return ctor_flow("C16", tier, seed,
+                     "message corpus: one single-validator declaration per (family x bound kind x bound value of both signs and several magnitudes x literal|const spelling); "
+                     "the Display text of the error obtained just outside the bound must name the type and the bound ({:#?} rendering) and contain exactly one relation phrase "
+                     "from a closed dictionary; that relation is evaluated at bound-1/bound/bound+1 (ints, char counts) or next_down/bound/next_up (floats) and compared with "
+                     "try_new at those points; FromStr errors must embed the text (serde: see C04 evidence). A case is a (declaration, variant:relation) pair.", guards,
+                     ["a message without a recognisable relation phrase is INCONCLUSIVE, not a violation"])
+
+
+def check_c12(tier, seed):
+    def guards(res, reports):
+        for k in ("nonfinite_offered:ctor", "nonfinite_offered:TryFrom", "nonfinite_offered:FromStr"):
+            res.guard(k, sum_guard(reports, k), 1)
+        res.guard("triples", sum_guard(reports, "triples"), 100000)
+        res.guard("declarations_with_order_axioms", sum(1 for r in reports if "order-axioms-on-special-set" in r["classes"]), 4)
+    return ctor_flow("C12", tier, seed,
+                     "f32/f64 declarations with `finite` (+ optional bounds, sanitizer, predicate) deriving PartialEq, Eq, PartialOrd, Ord and every entry-point trait; "
+                     "(1) every value leaving try_new / TryFrom / FromStr / Default is asserted finite (NaN payloads, +-inf, 1e400 offered; thorough: all 2^32 f32 patterns); "
+                     "(2) on all pairs and triples of up to 96 obtainable special/sampled values: == reflexive, cmp never panics, cmp == partial_cmp == inner partial_cmp, "
+                     "antisymmetry, transitivity, Equal <=> ==, sort is a non-decreasing permutation, BTreeSet finds every inserted value. Deserialize and Arbitrary entry "
+                     "points are asserted by the serde/arb binaries (see coverage.entry_points). A case is a (declaration, obtainability|order-axioms|sort|btreeset) pair.", guards)
+
+
+CHECKS = {"C01": check_c01, "C03": check_c03, "C06": check_c06, "C07": check_c07, "C11": check_c11, "C12": check_c12, "C13": check_c13, "C16": check_c16}
 
 
 def run_check(prop, tier, seed):
